@@ -38,8 +38,13 @@ def main():
             subprocess.run(["git", "-C", wt, "apply", os.path.abspath(spec)], check=True)
         env = dict(os.environ, VERIF_REPO=wt, VERIF_NOCACHE="0")
         for c in checks:
+            # the check writes evidence/<id>.json: keep the committed one (evidence must describe /repo itself)
+            evp = os.path.join(os.path.dirname(os.path.dirname(os.path.abspath(__file__))), "evidence", c + ".json")
+            keep = open(evp).read() if os.path.exists(evp) else None
             p = subprocess.run(["timeout", "1500", os.path.join(os.path.dirname(os.path.dirname(os.path.abspath(__file__))), "verif"), "check", c, "--tier", tier],
                                env=env, stdout=subprocess.PIPE, stderr=subprocess.STDOUT, text=True)
+            if keep is not None:
+                open(evp, "w").write(keep)
             viol = [l for l in p.stdout.splitlines() if l.startswith("VIOLATION")]
             sigs = [l.strip() for l in p.stdout.splitlines() if l.strip().startswith("signature:")]
             print("%s on mutant %s: exit %d, %d VIOLATION line(s)" % (c, name, p.returncode, len(viol)))
